@@ -410,7 +410,7 @@ func (s *store) emit(op types.String, doc types.Map) error {
 
 	for _, strm := range s.streams {
 		if ok, err := strm.Match(doc); err != nil {
-			return err
+			continue
 		} else if ok {
 			strm.Emit(types.NewMap(types.NewString("op"), op, types.NewString("id"), id))
 		}
